@@ -140,6 +140,10 @@ pub enum Policy {
     /// (0-based) dereference point (`touch`) until no other thread can make progress: the classic
     /// shape of a use-after-free under deferred reclamation
     Stall { victim: u8, nth: u8, stay: u8 },
+    /// as `Stall`, but the victim is suspended at its `nth` (0-based) scheduling point of any kind
+    /// inside its first call of kind `kind` (a `CallKind` code): everybody else runs on until
+    /// nobody can make progress, then the victim finishes the call on what it had read before
+    StallCall { victim: u8, kind: u8, nth: u8, stay: u8 },
 }
 
 #[derive(Clone, Debug, serde::Serialize, serde::Deserialize, PartialEq, Eq)]
@@ -254,6 +258,10 @@ struct Th {
     call_seen_foreign: u64,
     /// consecutive points of the current call without a change by anybody else
     call_quiet: u64,
+    /// scheduling points of the current call so far
+    call_points: u32,
+    /// the StallCall policy has suspended this thread once already
+    stall_done: bool,
 }
 
 struct Solo {
@@ -538,7 +546,7 @@ impl State {
                     }
                 }
             }
-            Policy::Stall { stay, .. } => match self.next_byte() {
+            Policy::Stall { stay, .. } | Policy::StallCall { stay, .. } => match self.next_byte() {
                 Some(b) => {
                     if can_stay && b <= stay {
                         me
@@ -828,6 +836,14 @@ impl Sched {
                 return st;
             }
         }
+        st.threads[me].call_points += 1;
+        if let Policy::StallCall { victim, kind, nth, .. } = &st.cfg.schedule.policy {
+            let th = &st.threads[me];
+            if *victim as usize == me && th.activity.kind == *kind && !th.stall_done && th.call_points == *nth as u32 + 1 {
+                st.threads[me].stalled = true;
+                st.threads[me].stall_done = true;
+            }
+        }
         if let Some((v, k)) = st.cfg.freeze {
             if v == me && st.threads[me].steps == k {
                 // never returns normally: the thread is unwound when the execution is torn down
@@ -940,6 +956,8 @@ impl Sched {
                     own_changes: 0,
                     call_seen_foreign: 0,
                     call_quiet: 0,
+                    call_points: 0,
+                    stall_done: false,
                 });
             }
             st.threads[0].state = TState::Runnable;
@@ -1078,6 +1096,7 @@ impl Sched {
                 st.threads[me].activity = a;
                 st.threads[me].in_call = a.kind != 0 && a.kind < 100;
                 st.threads[me].call_quiet = 0;
+                st.threads[me].call_points = 0;
                 st.threads[me].call_seen_foreign = st.changes_total - st.threads[me].own_changes;
             }
         }
